@@ -45,7 +45,35 @@ def run(ctx):
 
     _unifier_handlers(ctx, model)
     _records(ctx, model)
-    _ac_search(ctx, model)
+    uu_ = model.cls(f"{UNI}:UnidirectionalUnifier")
+    mem_ = uu_.members.get("map_commut_assoc")
+    if mem_ is None or mem_.kind != "func":
+        raise AnalysisError("UnidirectionalUnifier.map_commut_assoc not found")
+    try:
+        awit, an = _judge_ac(model, uu_, model.inlined(mem_.node),
+                             deep=ctx.tier == "thorough")
+    except AnalysisError as e:
+        awit = None
+        ctx.extra["judge_unavailable:map_commut_assoc"] = str(e)
+    if awit is not None:
+        ctx.ob("P0/ac/records-instantiate-to-target", not awit,
+               uu_.module.loc(mem_.node),
+               f"map_commut_assoc interpreted on {an} matching problems (free "
+               "variables and fixed children against 0..4 target children, "
+               "every table of fixed-child matches): every record accounts for "
+               "each target child exactly once and binds each variable to one "
+               "value; a renamed pattern is matched" if not awit else
+               "map_commut_assoc: " + "; ".join(awit[:2]), {"cases": an})
+    mark_ac = len(ctx.obs)
+    try:
+        _ac_search(ctx, model)
+    except AnalysisError:
+        if awit is None or awit:
+            raise
+    if awit is not None and not awit:
+        # (who calls the search, and with which combiner, is not the judge's)
+        ctx.withdraw_failures_since(
+            mark_ac, "decided by interpreting map_commut_assoc", prefix="P/ac/")
     _matchpy(ctx, model)
 
 
@@ -531,6 +559,261 @@ def _yields(path):
         if it[0] == "stmt" and isinstance(it[1], ast.Expr) and isinstance(
                 it[1].value, (ast.Yield, ast.YieldFrom)):
             yield i, it[1].value
+
+
+def _judge_ac(model, uu, fn, deep=False):
+    """interpretive judge (pv/absint.py): map_commut_assoc interpreted on
+    small AC matching problems -- a pattern of free variables and fixed
+    children against a target of 0..4 children, with the matches of the fixed
+    children given by a table -- together with UnificationRecord, unify_map and
+    unify_many as they are.  The property's clauses are checked on the records
+    that come out:
+      * every record accounts for each target child exactly once (the fixed
+        children's matches and the free variables' shares partition the
+        target), binds each variable to one value and keeps what the incoming
+        record had bound;
+      * when every pattern child can be paired with a target child of its own
+        (the target is the pattern renamed), at least one record comes out.
+    -> (witnesses, n_cases)"""
+    import itertools
+    from ..absint import (AbsGen, Interp, Obj, Opaque, Raised, StepBound,
+                          module_env, default_isinstance)
+    tree = uu.module.tree
+    rec_cls = None
+    for st in tree.body:
+        if isinstance(st, ast.ClassDef) and st.name == "UnificationRecord":
+            rec_cls = st
+    if rec_cls is None:
+        raise AnalysisError("UnificationRecord not found")
+    rec_methods = {s_.name: s_ for s_ in rec_cls.body
+                   if isinstance(s_, ast.FunctionDef)}
+
+    def resolve(cls, nm):
+        if cls == "UnificationRecord":
+            return ("func", rec_methods[nm]) if nm in rec_methods else None
+        if cls == "unifier":
+            m_ = model.lookup(uu, nm)
+            if m_ is not None and m_.kind == "func":
+                return ("func", m_.node)
+        return None
+
+    def var(name):
+        return Obj("Variable", {"name": name})
+
+    def isinst(it, n_, a, k):
+        cs = a[1] if isinstance(a[1], tuple) else (a[1],)
+        names = [getattr(c, "what", "").replace(".", " ").split(" ")[-1]
+                 for c in cs]
+        if all(nm in ("Variable", "Sum", "Product", "Expression") for nm in names):
+            return isinstance(a[0], Obj) and (a[0].cls in names or (
+                "Expression" in names and a[0].cls in ("Variable", "AC", "Fixed")))
+        r = default_isinstance(a[0], a[1])
+        if r is None:
+            raise AnalysisError(f"isinstance(..., {a[1]!r})")
+        return r
+
+    def type_(it, n_, a, k):
+        if isinstance(a[0], Obj):
+            return Opaque("class " + str(a[0].cls if a[0].cls != "AC"
+                                         else a[0].fields["kind"]))
+        raise AnalysisError("type() of a value")
+
+    glob = module_env(tree, {})
+
+    def mk_record(it, n_, a, k):
+        o = Obj("UnificationRecord")
+        it.call_function(rec_methods["__init__"], [o] + list(a),
+                         dict(glob, __kwargs__=dict(k)))
+        return o
+
+    def isinst_ac(it, n_, a, k):
+        # isinstance(other, type(expr))
+        if isinstance(a[1], Opaque) and a[1].what.startswith("class ") and \
+                isinstance(a[0], Obj) and a[0].cls == "AC":
+            return a[1].what == "class " + a[0].fields["kind"]
+        return isinst(it, n_, a, k)
+
+    class FVal:
+        """what the combiner makes of the target children it is handed"""
+        def __init__(self, items):
+            self.items = tuple(sorted(items))
+
+        def __eq__(self, o):
+            return isinstance(o, FVal) and self.items == o.items
+
+        def __ne__(self, o):
+            return not self == o
+
+        def __hash__(self):
+            return hash(self.items)
+
+        def __repr__(self):
+            return "combined" + repr(self.items)
+    wit = []
+    n_cases = 0
+
+    def run_case(nfree, nfixed, m, table, incoming, cands_extra=(),
+                 other_kind="Sum"):
+        """table: set of (fixed index, target index) that match"""
+        free = [var(f"x{i}") for i in range(nfree)]
+        fixed = [Obj("Fixed", {"i": i}) for i in range(nfixed)]
+        # pattern children interleaved: fixed first, then free, then a fixed
+        kids = tuple(fixed[:1] + free + fixed[1:])
+        targets = tuple(f"t{j}" for j in range(m))
+        expr = Obj("AC", {"kind": "Sum", "children": kids})
+        other = Obj("AC", {"kind": other_kind, "children": targets})
+        me = Obj("unifier", {
+            "lhs_mapping_candidates": {v.fields["name"] for v in free}
+            | set(cands_extra),
+            "rhs_mapping_candidates": None, "force_var_match": True})
+        interp = [None]
+
+        def rec(it, n_, a, k):
+            my, oc, urecs = a[0], a[1], a[2]
+            if not (isinstance(my, Obj) and my.cls == "Fixed"):
+                raise AnalysisError("map_commut_assoc: rec of a child that is "
+                                    "a free variable")
+            if oc not in targets:
+                raise AnalysisError("map_commut_assoc: rec against something "
+                                    "that is no target child")
+            if (my.fields["i"], targets.index(oc)) not in table:
+                return []
+            eq = mk_record(it, n_, [[(var(f"@{my.fields['i']}"), oc)]], {})
+            return it.call_function(glob["unify_many"].fn, [list(urecs), eq],
+                                    dict(glob))
+
+        def factory(gen):
+            return FVal(gen)
+        it = Interp(calls={"self.rec": rec, "isinstance": isinst_ac,
+                           "type": type_, "UnificationRecord": mk_record,
+                           "combinations": lambda it_, n_, a, k: list(
+                               itertools.combinations(sorted(a[0]), a[1])),
+                           "itertools.combinations": lambda it_, n_, a, k: list(
+                               itertools.combinations(sorted(a[0]), a[1]))},
+                    attrs=lambda it_, n_, b, at: Opaque(ast.unparse(n_)),
+                    resolve=resolve, globals_=glob, max_steps=400000)
+        inc = []
+        for bind in incoming:
+            inc.append(mk_record(it, None, [[(var(nm), val)
+                                            for nm, val in bind]], {}))
+        label = (f"pattern of {nfree} free variable(s) and {nfixed} other "
+                 f"child(ren) against {m} target child(ren), matches "
+                 f"{sorted(table)}" + (f", incoming bindings {incoming}"
+                                       if incoming != [[]] else ""))
+        try:
+            out = it.call_function(fn, [me, expr, other, inc, factory], dict(glob))
+            if isinstance(out, AbsGen) or hasattr(out, "__next__"):
+                out = list(out)
+            elif out is None:
+                out = []
+        except Raised as r:
+            wit.append(f"{label}: raises at line "
+                       f"{getattr(r.node, 'lineno', '?')}")
+            return
+        except StepBound:
+            wit.append(f"{label}: does not terminate")
+            return
+        if other_kind != "Sum":
+            if out:
+                wit.append(f"{label}: a target of another class than the "
+                           "pattern's yields records")
+            return
+        # reference: is there an assignment at all / a renaming?
+        def solutions():
+            for sigma in itertools.permutations(range(m), nfixed):
+                if all((i, j) in table for i, j in enumerate(sigma)):
+                    left = set(range(m)) - set(sigma)
+                    yield sigma, left
+        renaming = any(len(left) == nfree for _, left in solutions())
+        consistent_inc = [b for b in incoming]
+        for r_ in out:
+            if not (isinstance(r_, Obj) and r_.cls == "UnificationRecord"):
+                wit.append(f"{label}: yields {r_!r}, not a record")
+                return
+            lmap = r_.fields.get("lmap")
+            if not isinstance(lmap, dict):
+                raise AnalysisError("UnificationRecord.lmap is not a table")
+            used = []
+            for i in range(nfixed):
+                t = lmap.get(f"@{i}")
+                if t not in targets:
+                    wit.append(f"{label}: a record leaves the pattern's other "
+                               f"child {i} unmatched")
+                    return
+                if (i, targets.index(t)) not in table:
+                    wit.append(f"{label}: a record pairs child {i} with {t}, "
+                               "which it does not match")
+                    return
+                used.append(t)
+            for v in free:
+                val = lmap.get(v.fields["name"])
+                if not isinstance(val, FVal):
+                    wit.append(f"{label}: a record does not bind the free "
+                               f"variable {v.fields['name']} to a recombination "
+                               "of target children")
+                    return
+                used.extend(val.items)
+            if sorted(used) != sorted(targets):
+                wit.append(f"{label}: a record accounts for the target children "
+                           f"{sorted(used)}: instantiating the pattern does not "
+                           f"give back the target's {sorted(targets)}")
+                return
+            extra = set(lmap) - {f"@{i}" for i in range(nfixed)} - {
+                v.fields["name"] for v in free}
+            if extra - {nm for b in incoming for nm, _ in b}:
+                wit.append(f"{label}: a record binds {sorted(extra)}, which are "
+                           "not pattern variables")
+                return
+            # what an incoming record bound stays bound to the same value
+            ok_inc = any(all(lmap.get(nm) == val for nm, val in b)
+                         for b in incoming)
+            if not ok_inc:
+                wit.append(f"{label}: a record contradicts every incoming "
+                           "record (a variable is bound to two values)")
+                return
+        if renaming and incoming == [[]] and not out:
+            wit.append(f"{label}: no record although every pattern child can "
+                       "be paired with a target child of its own")
+
+    for nfree, nfixed in ((0, 1), (0, 2), (1, 0), (1, 1), (2, 0), (2, 1),
+                          (1, 2), (2, 2), (3, 0)):
+        for m in range(0, 5):
+            if m > nfree + nfixed + 1 and nfree == 0:
+                continue
+            if not deep and m == 4 and nfree + nfixed >= 3:
+                continue
+            pairs = [(i, j) for i in range(nfixed) for j in range(m)]
+            if len(pairs) <= 4:
+                tables = [set(c) for r_ in range(len(pairs) + 1)
+                          for c in itertools.combinations(pairs, r_)]
+            else:
+                tables = [set(pairs), {(i, i) for i in range(min(nfixed, m))},
+                          {(i, m - 1 - i) for i in range(min(nfixed, m))},
+                          {(0, j) for j in range(m)}
+                          | {(1, 0)} if nfixed > 1 else set(pairs),
+                          set()]
+            for table in tables:
+                n_cases += 1
+                run_case(nfree, nfixed, m, table, [[]])
+                if len(wit) > 6:
+                    return wit, n_cases
+    # incoming records that already bind a free variable
+    for m in (1, 2, 3):
+        n_cases += 2
+        run_case(1, 0, m, set(), [[("x0", FVal(f"t{j}" for j in range(m)))]])
+        run_case(1, 0, m, set(), [[("x0", FVal(("t0", "zz")))]])
+        run_case(2, 1, m, {(0, 0)}, [[("x0", FVal(("t1",)))], []])
+        # ... with fixed children in the pattern (the incoming records reach
+        # the result through the fixed children's matches)
+        n_cases += 3
+        run_case(1, 1, m, {(0, 0)}, [[("w", "elsewhere")]])
+        run_case(1, 1, m + 1, {(0, 0)}, [[("x0", FVal(("t0", "zz")))]])
+        run_case(1, 1, m + 1, {(0, 0), (0, 1)},
+                 [[("x0", FVal(f"t{j}" for j in range(1, m + 1)))]])
+    # a target of another class is no match
+    n_cases += 1
+    run_case(1, 1, 2, {(0, 0)}, [[]], other_kind="Product")
+    return wit, n_cases
 
 
 def _ac_search(ctx, model):
